@@ -20,6 +20,9 @@ def run(tier, seed):
                 "form": ["list", "array"][(seed + r["id"]) % 2]}
         for i in range(0, len(r["parts"]), 24):
             gjobs.append(dict(base, parts=r["parts"][i:i + 24], expects=r["ok"][i:i + 24]))
+    import random
+    from harness import scaleup
+    gjobs += scaleup.group_jobs(chk, tier, seed, random.Random(seed + 7))
     results = GC.pmap(GR.run_groups, gjobs)
     for job, mism in zip(gjobs, results):
         for rgs in job["parts"]:
